@@ -130,6 +130,17 @@ class SubExporter(DictExporter):
         return strip(DictExporter.export(self, node))
 
 
+class SubExporter2(DictExporter):
+    """a DictExporter subclass overriding the hook the exporter reads a node's attributes through (the documented way to
+    export slotted nodes, to hide run-time attributes or to add computed ones): here it hides the attribute `a`"""
+
+    @staticmethod
+    def _iter_attr_values(node):
+        for k, v in DictExporter._iter_attr_values(node):
+            if k != "a":
+                yield k, v
+
+
 def childiter_of(k):
     if k == "reversed":
         return lambda cs: list(reversed(cs))
@@ -180,8 +191,26 @@ def impl(case):
     if case.get("via_subclass"):
         # same behaviour as attriter "drop_a", obtained by overriding a method of the exporter class
         kw = {k: v for k, v in kw.items() if k != "attriter"}
-        expcls = SubExporter
+        expcls = SubExporter2 if case.get("via_subclass") == "iterattr" else SubExporter
     exp = expcls(**kw)
+    if case.get("nested_export"):
+        # a user callback that exports another node with the SAME exporter while an export is running (cross references
+        # serialised in place): the outer export must be unaffected
+        inner_real = exp.attriter if hasattr(exp, "attriter") else None
+        if inner_real is not None or hasattr(exp, "attriter"):
+            busy = {"on": False, "n": 0}
+            real2 = exp.attriter or (lambda items: items)
+
+            def reentering(items, busy=busy, real2=real2):
+                busy["n"] += 1
+                if not busy["on"] and busy["n"] % 2 == 0:
+                    busy["on"] = True
+                    try:
+                        exp.export(top)
+                    finally:
+                        busy["on"] = False
+                return real2(items)
+            exp.attriter = reentering
     if prior:
         for k in prior:
             state["boom_at"], state["calls"] = k, 0
